@@ -1,6 +1,7 @@
 package rv
 
 import (
+	"golang.org/x/tools/go/ssa"
 	"fmt"
 	"go/ast"
 	"go/constant"
@@ -13,7 +14,7 @@ import (
 func init() {
 	Registry["C32"] = RuleDef{Module: ".", Run: runC32,
 		Technique:   "exhaustive evaluation of builder flag constants over the builder type graph (go/types), compared with embedded Redis command-flag tables",
-		Explanation: "Decides over every root builder of internal/cmds (R32a) that a root from which a type with a Cache() method is reachable through method return types carries all read-only flag bits; (R32b) that every method appending the token BLOCK ors in the blocking flag, and every root whose command Redis flags as blocking carries it; (R32c) that the SUBSCRIBE family roots carry the no-reply flag, the UNSUBSCRIBE family and the predefined unsubscribe commands the unsubscribe flag, and the flag algebra (unsub ⊇ noRet ⊇ readonly ⊇ retryable; mtGet, scrRo ⊇ readonly) holds; (R32d) that no root flagged read-only is a command Redis or its modules document with the `write` flag (embedded table; incomplete tables can only miss); (R32e) that the only flag mutation in generated methods is `|= blockTag` and Build/Cache copy the flags unchanged.",
+		Explanation: "Decides over every root builder of internal/cmds (R32a) that a root from which a type with a Cache() method is reachable through method return types carries all read-only flag bits; (R32b) that every method appending the token BLOCK ors in the blocking flag, and every root whose command Redis flags as blocking carries it; (R32c) that the SUBSCRIBE family roots carry the no-reply flag, the UNSUBSCRIBE family and the predefined unsubscribe commands the unsubscribe flag, and the flag algebra (unsub ⊇ noRet ⊇ readonly ⊇ retryable; mtGet, scrRo ⊇ readonly) holds; (R32d) that no root flagged read-only is a command Redis or its modules document with the `write` flag (embedded table; incomplete tables can only miss); (R32f) that Arbitrary refuses to complete any command whose name ends in SUBSCRIBE (case-insensitively) and that all its completing methods go through that guard; (R32e) that the only flag mutation in generated methods is `|= blockTag` and Build/Cache copy the flags unchanged.",
 		NotDecided:  "semantics of commands absent from the embedded tables; server-side behaviour of scripts and functions flagged read-only by their _RO variants."}
 }
 
@@ -146,7 +147,13 @@ func runC32(r *Report) {
 					if lhs == recvName+".cf" {
 						ok := x.Tok == token.OR_ASSIGN && strings.Contains(types.ExprString(x.Rhs[0]), "blockTag")
 						if ok {
-							orsBlock = true
+							// only an unconditional statement of the method body marks every use of the
+							// option (BLOCK 0 = wait forever is the most blocking form)
+							for _, st := range fd.Body.List {
+								if st == ast.Stmt(x) {
+									orsBlock = true
+								}
+							}
 						} else {
 							r.Ob("R32e", nil, "flag-mutation:"+types.ExprString(fd.Recv.List[0].Type)+"."+fd.Name.Name, x.Pos(), false, "a generated method changes the command flags other than by `|= blockTag`: "+types.ExprString(x.Lhs[0])+" "+x.Tok.String()+" "+types.ExprString(x.Rhs[0]))
 						}
@@ -176,10 +183,47 @@ func runC32(r *Report) {
 			})
 			if appendsBlock {
 				nBlockMethods++
-				r.Ob("R32b", nil, "block-option:"+types.ExprString(fd.Recv.List[0].Type)+"."+fd.Name.Name, fd.Pos(), orsBlock, "a method that appends the BLOCK <ms> option must mark the command blocking, otherwise it waits on the shared pipeline")
+				r.Ob("R32b", nil, "block-option:"+types.ExprString(fd.Recv.List[0].Type)+"."+fd.Name.Name, fd.Pos(), orsBlock, "a method that appends the BLOCK <ms> option must mark the command blocking unconditionally (also for 0 = wait forever), otherwise it waits on the shared pipeline")
 			} else if orsBlock {
 				nBlockMethods++
 			}
+		}
+	}
+	// R32f: a hand-assembled command (Arbitrary) cannot be completed as an ordinary command when its
+	// name ends in SUBSCRIBE (in any letter case: SUBSCRIBE, PSUBSCRIBE, SSUBSCRIBE and the three
+	// UNSUBSCRIBE forms), because it would leave the builder without the Pub/Sub flags; every
+	// completing method funnels through Build, whose guard is the suffix test
+	if fn := r.FnAnchor("R32f", "rueidis/internal/cmds.(Arbitrary).Build"); fn != nil {
+		guarded := false
+		for _, s := range Sites(fn, func(in ssa.Instruction) bool { _, ok := in.(*ssa.Panic); return ok }) {
+			for _, g := range DomGuards(s.Block) {
+				c, ok := g.Cond.(*ssa.Call)
+				if !ok || !g.Pol || CalleeName(c) != "strings.HasSuffix" {
+					continue
+				}
+				suf, iss := ConstString(c.Call.Args[1])
+				up, isu := c.Call.Args[0].(*ssa.Call)
+				if iss && suf == "SUBSCRIBE" && isu && CalleeName(up) == "strings.ToUpper" && strings.Contains(DescDeep(up.Call.Args[0]), ".cs.s[0]") {
+					guarded = true
+				}
+			}
+		}
+		r.Ob("R32f", fn, "arbitrary-refuses-the-subscribe-family", fn.Pos(), guarded, "Arbitrary.Build panics for every command name that ends in SUBSCRIBE, case-insensitively (all six Pub/Sub commands)")
+		for _, m := range []string{"Blocking", "ReadOnly", "MultiGet"} {
+			f := r.FnAnchor("R32f", "rueidis/internal/cmds.(Arbitrary)."+m)
+			if f == nil {
+				continue
+			}
+			viaBuild := true
+			for _, b := range f.Blocks {
+				if ret, isr := b.Instrs[len(b.Instrs)-1].(*ssa.Return); isr {
+					c, isc := ret.Results[0].(*ssa.Call)
+					if !isc || CalleeName(c) != "rueidis/internal/cmds.(Arbitrary).Build" {
+						viaBuild = false
+					}
+				}
+			}
+			r.Ob("R32f", f, "completes-through-Build", f.Pos(), viaBuild, "Arbitrary."+m+" completes the command through Build (and therefore through its Pub/Sub guard)")
 		}
 	}
 	r.Anchor("R32", "generated builder roots", len(roots) >= 400)
